@@ -22,6 +22,7 @@ DECIDES = (
     "modules are taken of vectors, never of positions (C08.AFFINE-KINDS)."
     ' The centre built by arc_length_3point is the circumcentre of its three arguments - exact identity in a rational-function domain (C08.CIRCUMCENTRE); arc_from_origin adjusts the given centre iff the origin is not equidistant or a flatness other than 1 is asked for, on a toy model with chosen lengths (C08.ADJUST-ONLY-WHEN-NEEDED).'
     ' The reflex decision of arc_length_3point is right for 132 exactly evaluated arcs, given point anywhere along the sweep, both senses (C08.REFLEX-DECISION); the validity tests of arcs are absolute and unsquared (C08.VALIDITY-TOLERANCE); the converted arc point is not memoised (C08.NO-MEMO).'
+    ' arc_from_theta returns the exact half-way point of the sector for 48 minor and reflex sectors of either sense, evaluated over exact rational vectors (C08.REFLEX-MIDPOINT); EdgeList keeps the vertex order of a new edge (C08.EDGE-ENDS); the conversion does not modify the stored axis / angle (C08.ARGUMENTS-UNTOUCHED).'
 )
 NOT_DECIDED = (
     "everything trigonometric: that the middle point lies on the described circle, half-way, on the intended side; that the length is radius "
